@@ -355,6 +355,12 @@ def run(run, ix, tier):
     check_literal_length(run, ix)
     check_text_never_through_float(run, ix)
     check_numeral_size_hint(run, ix)
+    # W-R6 (= B-R5 of C07, seed C08-6): the read-back half of the round trip.  repr prints enough digits to identify the
+    # number, which only helps if from_str derives the value from the exact digits: for |exponent| > 400 the mantissa
+    # of the literal stays exact until the one product with the power of ten
+    from .c07 import check_from_str_exact
+    run.rule('W-R6', floor=5, desc='from_str derives the value from the exact digits of the literal (B-R5 of C07)')
+    check_from_str_exact(run, ix, rule='W-R6')
 
 
 # ---------------------------------------------------------------------------------------------
